@@ -923,6 +923,17 @@ def rule_r10(prog, res):
               k, 1)
 
 
+def rule_r11(prog, res):
+    from . import c16, c02
+    from ..report import Result
+    res.share('R11', 'the polymorphic switch tests the instance against the '
+              'original of the declared class (C16-R14)', 'C16', c16.rule_r14,
+              prog, Result)
+    res.share('R11', 'positional documents are paired with the flattened '
+              'field list, parents included (C02-R2)', 'C02', c02.rule_r2,
+              prog, Result)
+
+
 def run(prog, res, tier):
     res.run_rule(rule_r1, prog, res)
     res.run_rule(rule_r2, prog, res)
@@ -934,6 +945,7 @@ def run(prog, res, tier):
     res.run_rule(rule_r8, prog, res)
     res.run_rule(rule_r9, prog, res)
     res.run_rule(rule_r10, prog, res)
+    res.run_rule(rule_r11, prog, res)
 
 
 _N = 'spyne/server/null.py'
